@@ -263,11 +263,13 @@ func (m *mon) judge(dec, s, origin string) {
 	// the result: declared size, well formed
 	var gotN int
 	var bad string
+	var model *rg.G // the adjacency of the result read through IsEdge
 	large := false
 	pi = c.Call(dec+"|"+sk+"|read-result", func() {
 		gotN = h.N()
 		if gotN <= 300 {
-			bad = rg.WellFormed(h)
+			model = rg.FromGraph(h)
+			bad = rg.Conforms(h, model) // = rg.WellFormed(h)
 		} else {
 			large = true
 			bad = wellFormedLarge(h)
@@ -312,9 +314,7 @@ func (m *mon) judge(dec, s, origin string) {
 				c.Obs("Sparse6Decode:accepted_without_stream", 1)
 			}
 			if !large {
-				var same bool
-				c.Call(dec+"|"+sk+"|read-result", func() { same = rg.FromGraph(h).Equal(sc.Graph()) })
-				if same {
+				if model.Equal(sc.Graph()) {
 					c.Obs("Sparse6Decode:result_equals_tolerant_reference_reading", 1)
 				} else {
 					c.Obs("Sparse6Decode:result_differs_from_tolerant_reference_reading(not judged)", 1)
@@ -366,8 +366,8 @@ func (m *mon) judge(dec, s, origin string) {
 	var diff string
 	pi = c.Call(dec+"|"+sk+"|compare", func() {
 		if !large {
-			a, b := rg.FromGraph(h), rg.FromGraph(h2)
-			if !a.Equal(b) {
+			a, b := model, rg.FromGraph(h2)
+			if b.N != a.N || !a.Equal(b) {
 				diff = fmt.Sprintf("decoded %s, after encode+decode %s", a, b)
 			}
 			return
@@ -422,10 +422,16 @@ func baseGraphs(c *engine.Ctx) []*rg.G {
 	}
 	per := c.Pick(3, 24)
 	for _, n := range []int{7, 8, 9, 15, 16, 17, 18, 31, 32, 33, 40, 62, 63, 64, 70} {
-		out = append(out, rg.New(n), gen.PathG(n), gen.Complete(n-1).AddVertex(nil))
+		out = append(out, rg.New(n), gen.PathG(n))
+		if n <= 18 || n == 32 {
+			out = append(out, gen.Complete(n-1).AddVertex(nil))
+		}
 		for i := 0; i < per; i++ {
 			r := c.Rand("base", n*100+i)
 			p := []float64{0.08, 0.3, 0.6}[i%3]
+			if n > 18 { // decoding a dense sparse6 string costs the library one allocation per edge
+				p = []float64{0.03, 0.1, 0.2}[i%3]
+			}
 			g := gen.Random(r, n, p)
 			if i%4 == 1 {
 				for j := 0; j < n; j++ {
@@ -454,14 +460,22 @@ func (m *mon) mutations(dec, valid, origin string) {
 		m.judge(dec, valid[1:], origin+": without ':'")
 		m.judge(dec, ":"+valid, origin+": second ':'")
 	}
+	// every position of a short string; of a long one the first and last 16
+	// and 32 positions in between (the cost would be quadratic otherwise)
+	positions := make([]int, 0, len(valid))
 	for l := 0; l < len(valid); l++ {
+		if len(valid) <= 100 || l < 16 || l >= len(valid)-16 || (uint64(l)*2654435761>>4)%uint64max(1, uint64(len(valid)/32)) == 0 {
+			positions = append(positions, l)
+		}
+	}
+	for _, l := range positions {
 		m.judge(dec, valid[:l], origin+fmt.Sprintf(": truncated to %d bytes", l))
 		if l%3 == 0 {
 			m.judge(dec, hdr+valid[:l], origin+fmt.Sprintf(": header + truncated to %d bytes", l))
 		}
 	}
 	b := []byte(valid)
-	for i := range b {
+	for _, i := range positions {
 		old := b[i]
 		for _, x := range boundary {
 			if x == old {
@@ -484,6 +498,13 @@ func (m *mon) mutations(dec, valid, origin string) {
 	for _, t := range []string{"~~", "??", "\n", "\r\n", "~?", "?~", "@@@", "~~~~~~~~", valid} {
 		m.judge(dec, valid+t, origin+": trailing "+strconv.Quote(t))
 	}
+}
+
+func uint64max(a, b uint64) uint64 {
+	if a > b {
+		return a
+	}
+	return b
 }
 
 // stream builds ":" N(n) + the six-bit packing of bits (bits is padded by the
